@@ -457,6 +457,20 @@ class RunTaskHandler(StabilizeHandler[RunTask]):
                 logger.error("Task %s not found in stage %s", task_id, stage_id)
                 return
 
+            if task_model.status != WorkflowStatus.RUNNING:
+                # The task left RUNNING while it was executing (its stage was canceled
+                # by another worker, for instance). The result is stale: applying it
+                # would overwrite a newer durable status such as CANCELED.
+                logger.info(
+                    "Discarding result for task %s - no longer RUNNING (%s)",
+                    task_model.name,
+                    task_model.status,
+                )
+                if message.message_id:
+                    with self.repository.transaction(self.queue) as txn:
+                        txn.mark_message_processed(message.message_id)
+                return
+
             process_result(
                 stage,
                 task_model,
